@@ -254,7 +254,7 @@ func runC20(t *simrt.Tape, o Opts) Outcome {
 				w.Violate("reread-more-than-once", "reread-more-than-once/decrypt", "decrypt after the interval read the unchanged, valid key record %d times", n)
 			}
 		}
-		n := 10 + t.Choose(60, "nops")
+		n := 10 + t.Choose(scale(o, 60, 180), "nops")
 		for i := 0; i < n && len(w.Viols) == 0; i++ {
 			h.step()
 		}
